@@ -10,7 +10,8 @@ EXTENDS Integers, Sequences, TLC, Json, Sections
 CONSTANTS MaxLen, Extend
 VARIABLES hist, prev, ended
 vars == <<hist, prev, ended>>
-IllegalIds == {"...preamble", ".diff", "..diff", ".file", "...file", "..change", "...change", ".diffx"}
+(* all 24 well-formed ids: 0-3 dots x six names *)
+IllegalIds == {SecId(l, nm) : l \in 0..3, nm \in {"diffx", "preamble", "meta", "change", "file", "diff"}} \ LegalIds
 Ids == LegalIds \cup IllegalIds
 Init == hist = <<>> /\ prev = "START" /\ ended = FALSE
 Legal(id) == /\ ~ended /\ Len(hist) < MaxLen /\ id \in FollowOf(prev)
